@@ -20,6 +20,9 @@
 #include <nix/Platform.hpp>
 #include <nix/util/util.hpp>
 
+#include <algorithm>
+#include <stdexcept>
+
 
 namespace nix {
 
@@ -320,6 +323,15 @@ public:
             throw nix::InvalidDimension("The ticks of a range dimension must not be empty!",
                                         "DataArray::appendRangeDimension");
         }
+        // validate everything before the descriptor is created: a rejected call must leave no trace
+        if (std::adjacent_find(ticks.begin(), ticks.end(),
+                               [](double a, double b) { return !(a <= b); }) != ticks.end()) {
+            throw nix::UnsortedTicks("DataArray::appendRangeDimension");
+        }
+        if (unit.size() > 0 && !util::isSIUnit(unit)) {
+            throw nix::InvalidUnit("Unit is not an atomic SI. Note: So far composite units are not supported",
+                                   "DataArray::appendRangeDimension");
+        }
         RangeDimension dim = backend()->createRangeDimension(backend()->dimensionCount() + 1, ticks);
         if (label.size() > 0)
             dim.label(label);
@@ -371,6 +383,14 @@ public:
      */
     SampledDimension appendSampledDimension(double sampling_interval, const std::string &label="",
                                             const std::string &unit="", double offset=0.0) {
+        // validate everything before the descriptor is created: a rejected call must leave no trace
+        if (!(sampling_interval > 0.0)) {
+            throw std::runtime_error("DataArray::appendSampledDimension: Sampling intervals must be larger than 0.0!");
+        }
+        if (unit.size() > 0 && !util::isSIUnit(unit)) {
+            throw nix::InvalidUnit("Unit is not a SI unit. Note: so far, only atomic SI units are supported.",
+                                   "DataArray::appendSampledDimension");
+        }
         SampledDimension dim = backend()->createSampledDimension(backend()->dimensionCount() + 1,
                                                                  sampling_interval);
         if (label.size() > 0)
